@@ -143,4 +143,25 @@ example : killOK [.create t, .write t, .rename t f1, .write f1] = false := by de
 /-- an unverifiable highest file makes `recover` fail loudly -/
 example : (recover [f1] (run [.create f1, .write f1, .write f1]).written (killState [.create f1, .write f1, .write f1] 2)).toOption = none := by decide
 
+/-! ## Known finding (KNOWN_FINDINGS `C03/follow-inplace-output-malformed`)
+
+`restore -follow` (replica.go: follow → applyLTXFile) writes the pages of every new LTX file directly into
+the already published output database. In the model that is a `write` under a final name: exactly what
+`killOK` forbids, so the hypothesis of `kill_no_partial` is the complement of the finding's signature.
+The full-strength statement ("every history of the real system is kill-safe") is false on this witness. -/
+
+private def outDb : Path := ⟨3, 1, true, 2, 0, 0⟩
+private def outTmp : Path := ⟨3, 2, false, 2, 0, 0⟩
+/-- restore publishes the output, acknowledges, then the follower applies two pages in place and syncs -/
+def followInPlaceWitness : List Event :=
+  [.create outTmp, .write outTmp, .fsync outTmp, .close outTmp, .rename outTmp outDb, .fsyncDir 3, .ok 1,
+   .write outDb, .write outDb, .fsync outDb]
+
+theorem follow_inplace_not_killOK : killOK followInPlaceWitness = false := by decide
+
+/-- killed between the two page writes, the output path shows an incomplete file -/
+theorem follow_inplace_partial_visible :
+    (killState followInPlaceWitness 8).vol outDb = some 0 ∧
+    ¬ Complete followInPlaceWitness 0 ((killState followInPlaceWitness 8).written 0) := by decide
+
 end Litestream.C03
